@@ -156,6 +156,9 @@ func getContourPoints(sg tables.SimpleGlyph) []contourPoint {
 
 	points := make([]contourPoint, len(sg.Points))
 	for _, end := range sg.EndPtsOfContours {
+		if int(end) >= len(points) { // invalid font: only the last end point is checked by the parser
+			continue
+		}
 		points[end].isEndPoint = true
 	}
 	for i, p := range sg.Points {
